@@ -183,6 +183,10 @@ func mkAdapter(name string) inprocgrpc.Cloner {
 		return inprocgrpc.CloneFunc(goodClone)
 	case "CopyFunc":
 		return inprocgrpc.CopyFunc(goodCopy)
+	case "CloneFunc:proto": // a user function that delegates to the default strategy (prov.go)
+		return inprocgrpc.CloneFunc(inprocgrpc.ProtoCloner{}.Clone)
+	case "CopyFunc:proto":
+		return inprocgrpc.CopyFunc(inprocgrpc.ProtoCloner{}.Copy)
 	case "raw": // the reference functions themselves, for selfCheck only
 		return rawCloner{}
 	case "faulty:stale-by-identity": // calibration of the sequence grammar only (seqs.go)
@@ -269,21 +273,19 @@ func (k kase) pairing() string {
 		if isNP(k.Src) {
 			return "nonproto"
 		}
-		return k.SrcRep
+		return cloneClass(k.SrcRep)
 	}
 	switch {
 	case isNP(k.Src) && isNP(k.DstType):
 		return "nonproto->nonproto"
 	case isNP(k.Src):
-		return "nonproto->" + k.DstRep
+		return "nonproto->" + repBase(k.DstRep) + descRel(false, "", k.DstRep)
 	case isNP(k.DstType):
-		return k.SrcRep + "->nonproto"
+		return repBase(k.SrcRep) + "->nonproto" + descRel(false, k.SrcRep, "")
 	case k.DstType != k.srcType():
-		return "difftype:" + k.SrcRep + "->" + k.DstRep
-	case k.SrcRep == k.DstRep:
-		return "same:" + k.SrcRep
+		return pairClass("difftype:", k.SrcRep, k.DstRep)
 	}
-	return k.SrcRep + "->" + k.DstRep
+	return pairClass("", k.SrcRep, k.DstRep)
 }
 
 func (k kase) key() string {
@@ -307,8 +309,8 @@ func (k kase) buildDst() interface{} {
 	// empty message of the type
 	g := specsOfType[k.DstType][0].build()
 	proto.Reset(g)
-	if k.DstRep == "dyn" {
-		return dynamic.NewMessage(descFor(g))
+	if isDyn(k.DstRep) {
+		return dynamic.NewMessage(descOf(g, repProv(k.DstRep)))
 	}
 	return g
 }
@@ -352,7 +354,9 @@ func short(b []byte) string {
 	return fmt.Sprintf("%x", b)
 }
 
-func runCase(k kase) (o outcome) {
+func runCase(k kase) outcome { return reduceProv(k, runCase1(k)) }
+
+func runCase1(k kase) (o outcome) {
 	if len(k.Seq) > 0 {
 		return runSeq(k)
 	}
